@@ -212,8 +212,20 @@ func (cj *CookieJar) parseCookiesFromResp(host, path []byte, resp *fasthttp.Resp
 
 		_ = c.ParseBytes(value) //nolint:errcheck // ignore error
 		if c.Expire().Equal(fasthttp.CookieExpireUnlimited) || c.Expire().After(now) {
-			cookies = append(cookies, c)
+			// an updated cookie is already in the list: only a new one is appended
+			if created {
+				cookies = append(cookies, c)
+			}
 		} else if created {
+			fasthttp.ReleaseCookie(c)
+		} else {
+			// the server expired a stored cookie: drop it
+			for i := range cookies {
+				if cookies[i] == c {
+					cookies = append(cookies[:i], cookies[i+1:]...)
+					break
+				}
+			}
 			fasthttp.ReleaseCookie(c)
 		}
 	})
